@@ -230,6 +230,7 @@ pub fn run<S: Scheme>(scn: &Scenario, log: &EventLog) -> RunResult {
             Claim::Lc { proof, .. } => io_check(&mut ctx, "lc-proof", proof, 40 + i as u64),
         }
     }
+    S::io_extra(&mut ctx, &sess);
     let (cases, ex, sa) = (ctx.cases, ctx.exhaustive_artefacts, ctx.sampled_artefacts);
     *res.stats.probes.entry("io-cases".into()).or_default() += cases;
     *res.stats.probes.entry("artefacts-offsets-exhaustive".into()).or_default() += ex;
